@@ -867,8 +867,17 @@ class CGSub(Sub):
             kw["M"] = _to_layout(tM, mlay, bs)
         keep = {k: (v.to_dense() if v.layout != torch.strided else v).clone() for k, v in kw.items()}
         b_keep, A_keep = tbb.clone(), tA.clone()
+        # the solver object may have a past: one case in three first solves a small (2 x 2 or 3 x 3) system with the same object.
+        # "CG returns x with |b - A x| <= tol |b| ... with its default 10 n iterations" holds for every call, not only for the first
+        # one of an object (an iteration budget or a work buffer frozen by the first call would be invisible otherwise - seed C10e)
+        reused = case["seed"] % 3 == 0
         with rec.sut("CG(%s)" % lay):
-            x = ppos.CG(tol=case["tol"])(SA, tbb, **kw)
+            solver = ppos.CG(tol=case["tol"])
+            if reused:
+                k0 = 2 + case["seed"] % 2
+                solver(torch.eye(k0, dtype=tA.dtype) * 2.0, torch.ones(k0, 1, dtype=tA.dtype))
+                rec.label("cg:solver_object_reused")
+            x = solver(SA, tbb, **kw)
         if x0n is not None or Mn is not None:
             rec.nt(("cg", lay, case["x0"], case["M"], mlay if Mn is not None else "-", case["tol"], case["cond_exp"],
                     case["bkind"], _cls(n), dtype, case["akind"], case["bshape"] if x0n is not None else "-"))
